@@ -10,6 +10,7 @@
 #include <gvt/fossil.h>
 
 #include <mm/msg_allocator.h>
+#include <verif_hooks.h>
 
 __thread unsigned fossil_epoch_current;
 /// The value of the last GVT, kept here for easier fossil collection operations
@@ -47,6 +48,12 @@ void fossil_lp_collect(struct lp_ctx *lp)
 	}
 
 	past_i = model_allocator_fossil_lp_collect(&lp->mm_state, past_i + 1);
+#ifdef ROOTSIM_VERIF
+	for(array_count_t verif_k = 0; verif_k < past_i; ++verif_k)
+		if(is_msg_past(array_get_at(proc_p->p_msgs, verif_k)))
+			VERIF_TRACE(VT_COMMIT, lp - lps, array_get_at(proc_p->p_msgs, verif_k), 0, 0);
+	VERIF_TRACE(VT_FOSSIL, lp - lps, verif_bits(gvt), past_i, 0);
+#endif
 
 	array_count_t k = past_i;
 	while(k--) {
